@@ -17,6 +17,10 @@ func AllRules() map[string]*Rule {
 		ruleCommitFollower(),
 		ruleOwners(),
 		ruleAppendEntries(),
+		ruleConfirmCount(),
+		ruleReadServe(),
+		ruleReadIndex(),
+		ruleLeaseBorn(),
 	} {
 		m[r.ID] = r
 	}
